@@ -155,7 +155,7 @@ def layout(src, lay):
             j = src.rfind(c)
             if i >= 0 and j > i and '\n' not in src and src[i:j].count(',') >= 2:
                 parts = [p.strip() for p in src[i + 1:j].split(',') if p.strip()]
-                new = src[:i + 1] + ', '.join(parts[:2]) + ',\n ' + ', '.join(parts[2:]) + src[j:]
+                new = src[:i + 1] + ', '.join(parts[:2]) + ',\n ' + ',\n '.join(parts[2:]) + src[j:]
                 t = O.try_parse(new)
                 if t is not None and O.dump(t) == O.dump(ast.parse(src)):
                     return new
@@ -316,10 +316,18 @@ def _reversed(n, start, stop):
 
 
 def run_index_cases(fst, kind, n, res, tier):
+    for lay in ('bare', 'stair'):
+        _run_index_cases(fst, kind, n, res, tier, lay)
+
+
+def _run_index_cases(fst, kind, n, res, tier, lay):
     """single index put / delete / insert / append / extend / prepend / prextend / attribute assignment."""
     old = kind.el[:n]
     src = kind.tmpl(old)
     if n < kind.startmin or O.try_parse(src) is None:
+        return
+    src = layout(src, lay)
+    if src is None:
         return
     x = kind.new[0]
     one_code = kind.one(x)
@@ -327,7 +335,7 @@ def run_index_cases(fst, kind, n, res, tier):
     two_code = kind.code(kind.new[:2])
 
     def run(cid, fn, exp, exc_ok=None):
-        params = {'kind': kind.name, 'entry': cid.rsplit('/', 1)[-1].split('(')[0], 'reversed_bounds': False, 'lay': 'bare'}
+        params = {'kind': kind.name, 'entry': cid.rsplit('/', 1)[-1].split('(')[0], 'reversed_bounds': False, 'lay': lay}
         rep = {'kind': kind.name, 'n': n, 'index_case': cid}
         root = fst.FST(src, 'exec')
         res.evals += 1
@@ -356,7 +364,7 @@ def run_index_cases(fst, kind, n, res, tier):
         judge(fst, kind, cid, src, root, exp, exc, res, params, rep, exp != old)
 
     f = kind.field
-    pre = f'C03/{kind.name}/n{n}/'
+    pre = f'C03/{kind.name}/n{n}/' + ('' if lay == 'bare' else lay + '/')
     for i in list(range(-(n + 2), n + 3)):
         # put one element at index i (replace): list semantics: IndexError outside -n..n-1
         ok = -n <= i < n
